@@ -237,6 +237,9 @@ def check_layout(rep, facts, fn, models):
             raise AnalysisError('the buffer sliced by the data download does not lead back to a value read from the file: {}'.format(show(fw)[:80]))
         wl = m.page_loop(d)
         if wl is None:
+            if m.loops_of.get(d.idx):
+                raise AnalysisError('cli_main: the data download sits in a loop over {} which is not a range(..) the rules can follow'.format(
+                    show(m.loops_of[d.idx][-1][2])[:80]))
             if once('noloop', id(d.node)):
                 rep.fail(F('R18.4.same-range', 'cli_main', d.site, 'the data download is not inside a loop over range(pages)'), instance='write loop')
             continue
@@ -366,6 +369,8 @@ def check_layout(rep, facts, fn, models):
                                 table[kk] = (vv, S.terms[()], facts.assign_nodes.get(name))
     rep.count('padding cases', n_pad)
     rep.count('flashing paths', n_paths)
+    if not table and n_paths:
+        raise AnalysisError('cli_main: how the page count of a GD32 part follows from its serial number is not understood (no variant could be read)')
     for letter, n in oracle.DFU['gd32_pages'].items():
         have = table.get(letter)
         rep.check(have is not None and have[0] == n and have[1] == oracle.DFU['gd32_page_size'], 'R18.8.variants',
